@@ -118,8 +118,8 @@ def run(ctx):
     if not ctx.thorough:
         allmaps = allmaps[::2]
     root, overlay = str(ctx.src.root), dict(ctx.src.overlay)
-    if ctx.thorough:
-        import multiprocessing as mp
+    import multiprocessing as mp
+    if (ctx.thorough or len(allmaps) > 100) and not mp.current_process().daemon and (os.cpu_count() or 1) > 1:
         nproc = min(16, os.cpu_count() or 1)
         size = max(1, len(allmaps) // (nproc * 4))
         jobs = [(root, overlay, allmaps[i:i + size], i) for i in range(0, len(allmaps), size)]
